@@ -29,13 +29,19 @@ var tokRe = regexp.MustCompile(`Q\d\d\dZ`)
 func draw(t *rapid.T) *pbt.Case {
 	maxB := 6
 	if pbt.Thorough() {
-		maxB = 10
+		maxB = 8
 	}
 	str := gen.Regular()
 	// (umultiis: a multi-cause type with its own Is method; nothing is
 	// claimed about Is after transfer here)
 	g := gen.Default(str).With("umultiis", "umulticauser")
 	g.XRate = 150 // (every layer is a reference here: wide and deep trees cost their square)
+	if pbt.Thorough() {
+		// (with the larger branch budgets of this tier an extreme tree costs
+		// seconds; the first complete thorough run had four of sixteen shards
+		// near their time limit)
+		g.XRate = 800
+	}
 	g.WMulti = 2
 	// Construct the feature: a multi-cause node whose branches are
 	// generated chains / trees, below 0-3 wrappers.
